@@ -250,6 +250,11 @@ enum GetF {
     BadObj,
     NoObj,
     Panic,
+    /// the lookup is a genuine hit (entry opened and parsed); BEFORE the request reads it the file is
+    /// truncated to zero / overwritten in place / unlinked behind the server's back
+    HitTrunc,
+    HitOverwrite,
+    HitUnlink,
 }
 #[derive(Clone, Copy, Default, Debug)]
 struct Faults {
@@ -272,6 +277,7 @@ struct Cur {
 struct FaultStorage {
     inner: Arc<dyn Storage>,
     script: Arc<Script>,
+    cache: PathBuf,
     cur: Mutex<Cur>,
     /// when set, the next `get` reports that it was entered and then waits to be released: lets the
     /// harness act (ZeroStats) while a request is provably in flight
@@ -392,6 +398,31 @@ impl Storage for FaultStorage {
             GetF::NoObj => Ok(Cache::Hit(CacheRead::from(Cursor::new(good_zip(None, false)))?)),
             // a bug in the storage backend (an unwrap, a poisoned lock, ...)
             GetF::Panic => panic!("injected panic in Storage::get"),
+            f @ (GetF::HitTrunc | GetF::HitOverwrite | GetF::HitUnlink) => {
+                let r = self.inner.get(key).await;
+                if let Ok(Cache::Hit(_)) = &r {
+                    // the fault happens DURING the request: after the entry was opened, before it is read
+                    let path = res_path(&self.cache, key);
+                    match f {
+                        GetF::HitTrunc => {
+                            let _ = std::fs::OpenOptions::new().write(true).truncate(true).open(&path);
+                        }
+                        GetF::HitOverwrite => {
+                            if let Ok(len) = std::fs::metadata(&path).map(|m| m.len()) {
+                                use std::io::{Seek, SeekFrom, Write};
+                                if let Ok(mut fh) = std::fs::OpenOptions::new().write(true).open(&path) {
+                                    let _ = fh.seek(SeekFrom::Start(0));
+                                    let _ = fh.write_all(&vec![0x5au8; len as usize]);
+                                }
+                            }
+                        }
+                        _ => {
+                            let _ = std::fs::remove_file(&path);
+                        }
+                    }
+                }
+                r
+            }
         }
     }
 
@@ -557,6 +588,7 @@ async fn make_storage(
     Arc::new(FaultStorage {
         inner,
         script: script.clone(),
+        cache: cache.to_path_buf(),
         cur: Mutex::new(Cur::default()),
         hold: Mutex::new(None),
         keys: keys.clone(),
@@ -606,6 +638,9 @@ fn parse_faults(x: &Sx) -> Result<Faults, String> {
                 ("badobj", GetF::BadObj),
                 ("noobj", GetF::NoObj),
                 ("panic", GetF::Panic),
+                ("hit_trunc", GetF::HitTrunc),
+                ("hit_overwrite", GetF::HitOverwrite),
+                ("hit_unlink", GetF::HitUnlink),
             ],
             "get",
         )?,
@@ -1280,6 +1315,27 @@ fn has_timeout(case: &Sx) -> bool {
     format!("{}", case).contains(" timeout ")
 }
 
+fn run_lines_flushed<F: FnMut(&Sx) -> Sx>(mut f: F) {
+    use std::io::{BufRead, Write};
+    let stdin = std::io::stdin();
+    let stdout = std::io::stdout();
+    for line in stdin.lock().lines() {
+        let line = line.expect("stdin");
+        let t = line.trim();
+        let r = if t.is_empty() || t.starts_with(';') {
+            Sx::L(vec![])
+        } else {
+            match Sx::parse(t) {
+                Ok(x) => f(&x),
+                Err(e) => Sx::L(vec![Sx::sym("harness_parse_error"), Sx::B(e.into_bytes())]),
+            }
+        };
+        let mut out = stdout.lock();
+        writeln!(out, "{}", r).unwrap();
+        out.flush().unwrap();
+    }
+}
+
 /// Cases run on a worker thread that owns the runtimes.  If a case does not finish within the hard limit (a
 /// thread of the real code is stuck in a loop or on a lock, which no in-runtime time-out can interrupt) it is
 /// reported as hung, the worker is abandoned and a fresh one is started; after three such cases the remaining
@@ -1333,7 +1389,10 @@ fn main() {
     );
     let mut worker = spawn_worker();
     let mut hangs = 0u32;
-    vh::run_lines(|case| {
+    // like vh::run_lines, but every observation is flushed at once: if a history kills the whole process (SIGBUS,
+    // abort) the observations of the histories before it must already be out, so that the first missing one IS
+    // the culprit
+    run_lines_flushed(|case| {
         if hangs >= 3 {
             return Sx::L(vec![Sx::L(vec![Sx::sym("not_run_after_hangs")])]);
         }
